@@ -27,6 +27,20 @@ Theorem C16_active_once_after_accept : forall v m sched k c, not_old v ->
   count_state SActive (c_log c) = 0%nat.
 Proof. intros v m sched k c Hv. exact (active_only_after_accept v Hv m sched k c). Qed.
 
+(* the same for Connect's result and the state, for EVERY return code other than 0 (the code is
+   an arbitrary number in the model: 1..5 and all reserved values 6..255 alike refuse) *)
+Theorem C16_no_success_without_accepting_code : forall v m sched k c, not_old v ->
+  Forall (fun sl => is_label k is_accept sl = false) sched ->
+  nth_error (cls (run v (init_sys m) sched)) k = Some c ->
+  c_conn c <> CReturned ROk /\ c_conn c <> CGotAck /\ c_state c <> SActive /\ count_state SActive (c_log c) = 0%nat.
+Proof. intros v m sched k c Hv. exact (no_success_without_accept v Hv m sched k c). Qed.
+
+(* a CONNACK packet is accepting iff it is well formed and its return code byte is 0, whatever
+   its acknowledge-flags byte (connack.go Parse + connect.go:155) *)
+Theorem C16_connack_accepting_iff_code_zero : forall hflag contents,
+  is_accept (connack_label hflag contents) = true <-> hflag = 0 /\ exists f, contents = [f; 0].
+Proof. exact connack_label_accept_iff. Qed.
+
 (* "Closed exactly once when the connection ends without Disconnect having been called,
    together with the non-nil error that ended it (which Err() also returns)" *)
 Theorem C16_closed_once_with_error : forall v m sched k c, not_old v ->
@@ -131,6 +145,8 @@ Proof. intros v m sched k c e Hv. exact (exit_path_closes_done v Hv m sched k c 
 
 Print Assumptions C16_active_at_most_once.
 Print Assumptions C16_active_once_after_accept.
+Print Assumptions C16_no_success_without_accepting_code.
+Print Assumptions C16_connack_accepting_iff_code_zero.
 Print Assumptions C16_closed_once_with_error.
 Print Assumptions C16_closed_at_most_once.
 Print Assumptions C16_disconnected_once.
